@@ -66,8 +66,8 @@ class CMRF(Distribution):
         self._physical_dim = physical_dim
 
         if self._physical_dim == 2:
-            N = int(np.sqrt(self.dim))
-            num_nodes = (N, N)
+            # the image shape of the geometry (the difference operator refuses non-square grids)
+            num_nodes = tuple(self.geometry.fun_shape)
         else: 
             num_nodes = self.dim
 
